@@ -496,8 +496,7 @@ class SpooledStringIO(SpooledIOBase):
     @property
     def len(self):
         """Determine the number of codepoints in the file"""
-        pos = self.buffer.tell()
-        tell = self._tell
+        pos = self.tell()
         self.buffer.seek(0)
         total = 0
         while True:
@@ -505,8 +504,9 @@ class SpooledStringIO(SpooledIOBase):
             if not ret:
                 break
             total += len(ret)
-        self.buffer.seek(pos)
-        self._tell = tell  # the counting reads above advanced it
+        # come back by code points: the raw byte offset of the buffer may
+        # be ahead of the logical position (decoder read-ahead)
+        self.seek(pos)
         return total
 
 
